@@ -319,6 +319,62 @@ func AnalyseWith(x interface{}, flags bool) Row {
 			row.Live = false
 		}
 	}()
+	// (e) a list-valued operand field of length ZERO next to non-empty helper lists (`call void @f() [ "deopt"(i32 %x) ]`: no arguments, but operand
+	// bundles with inputs): the view must expose every remaining slot
+	func() {
+		defer func() {
+			if e := recover(); e != nil {
+				row.Live = false
+			}
+		}()
+		inst6 := reflect.New(t)
+		var slots6 []slot
+		n6 := 0
+		fill(inst6.Elem(), "", &slots6, &n6)
+		if flags {
+			setFlags(inst6.Elem())
+		}
+		emptied := map[string]bool{}
+		v6 := inst6.Elem()
+		for i := 0; i < v6.NumField(); i++ {
+			f := t.Field(i)
+			if f.IsExported() && v6.Field(i).Kind() == reflect.Slice && v6.Field(i).Type().Elem() == valueType && v6.Field(i).CanSet() {
+				v6.Field(i).Set(reflect.MakeSlice(v6.Field(i).Type(), 0, 0))
+				emptied[f.Name] = true
+			}
+		}
+		if len(emptied) == 0 {
+			return
+		}
+		top := func(path string) string {
+			if i := strings.IndexAny(path, "[."); i >= 0 {
+				return path[:i]
+			}
+			return path
+		}
+		by6 := map[uintptr]string{}
+		for _, s6 := range slots6 {
+			if !emptied[top(s6.path)] {
+				by6[s6.addr] = s6.path
+			}
+		}
+		var got, want []string
+		for _, p := range inst6.Interface().(operander).Operands() {
+			if path, ok := by6[reflect.ValueOf(p).Pointer()]; ok {
+				got = append(got, path)
+			} else {
+				got = append(got, "?")
+			}
+		}
+		for _, p := range row.Operands {
+			if !emptied[top(p)] {
+				want = append(want, p)
+			}
+		}
+		if strings.Join(got, ",") != strings.Join(want, ",") {
+			row.Live = false
+		}
+	}()
 	// one slot at a time, with the successor list already computed once (a cached list must not survive ANY single retargeting)
 	if _, ok := inst.Interface().(succer); ok && len(row.Succs) > 0 && row.Succs[0] != "panic" {
 		for k := range row.Succs {
